@@ -9,6 +9,17 @@ TB = ("Coq 8.16.1 kernel; hand-written Gallina model tied to /repo by the corres
       "OCaml runner/main.ml; Python harness. See DESIGN.md section 7.")
 
 CLAIMED = {
+ "C04": dict(
+   text="8 theorems about the Gallina model of monoidal.Functor/rigid.Functor application (finite object and box "
+        "tables; Swap, Cup, Cap and daggered boxes mapped as the code does): images are well-typed from F(dom) to "
+        "F(cod); F(Id) = Id; F(a >> b) = F(a) >> F(b) and F(a @ b) = F(a) @ F(b) as equalities of values for all "
+        "well-typed diagrams and all functors defined on them (object images of any length incl. empty); the object "
+        "map is a monoid homomorphism sending .l/.r to .l/.r for every winding number.  Partial: the dagger law is "
+        "false as == for composite swaps (known finding F19) and is only stated; slices and sums are covered by the "
+        "check only.  Tie to /repo: random functors given as dicts and as callables, six laws per case decided by "
+        "the implementation's ==, both sides compared with the extracted model.",
+   design="6/C04", engine="coq-core",
+   technique="Coq proof (layer-by-layer functor semantics) + extracted-model correspondence + == oracle"),
  "C03": dict(
    text="17 theorems about a Gallina model of __eq__/__hash__/__repr__ in the monoidal and rigid classes: equality is "
         "an equivalence and holds iff dom, cod, boxes, offsets agree; a box equals its wrapping one-box diagram through "
